@@ -18,6 +18,8 @@ CORE = [
     ["NT 1", "CLIENT 0 N1 R"],
     ["NT 1", "CLIENT 0 N1 X1 R"],
     ["NT 1", "CLIENT 0 F1:5 R"],
+    ["NT 1", "CLIENT 0 F1:7200000 R"],            # a task two hours ahead must not delay the final release
+    ["NT 2", "CLIENT 0 N1 F2:86400000 R", "CLIENT 1 X2 R"],
     ["NT 1", "CLIENT 0 F1:0 X1 R"],
     ["NT 2", "CLIENT 0 N1 F2:3 X2 R"],
     ["NT 2", "CLIENT 0 N1 P P P P N2 R"],
@@ -36,7 +38,7 @@ def random_scenario(rng):
         if rng.random() < 0.5:
             ops[k].append("N%d" % t)
         else:
-            ops[k].append("F%d:%d" % (t, rng.choice([0, 1, 2, 5, 40000])))
+            ops[k].append("F%d:%d" % (t, rng.choice([0, 1, 2, 5, 40000, 7200000])))
         if rng.random() < 0.5:
             kc = k if rng.random() < 0.6 else rng.randrange(nclients)
             ops[kc].append("X%d" % t)
